@@ -164,3 +164,4 @@ M("c03-unfix-depth-step", "C03", "plot/map.py", "        zspacing = abs(zmax - z
 M("c05-degenerate-no-widening", "C05", "plot/histogram2d.py", "    if xmin == xmax:\n        if xmin == 0.0:", "    if xmin == xmax and xmin == 0.0:\n        if xmin == 0.0:", "all x equal and non-zero: the zero-width automatic range is not widened")
 M("c03-render-transposed", "C03", "plot/wrappers.py", "    out = ax.pcolormesh(x, y, z, **default_args)", "    out = ax.pcolormesh(x, y, z[::-1, :] if z.shape[0] > 1 and z.shape[0] == z.shape[1] else z, **default_args)", "rendered image flipped vertically for square maps (the returned data are right)")
 M("c03-render-xlim", "C03", "plot/map.py", "        figure[\"ax\"].set_xlim(xmin, xmax)", "        figure[\"ax\"].set_xlim(xmin, xmax * 1.02)", "x axis of the rendered map extends beyond the window")
+M("c05-unfix-nextafter", "C05", "plot/histogram2d.py", "        ymax = max(ymax + 0.05 * dy, np.nextafter(ymax, np.inf))", "        ymax = ymax + 0.05 * dy", "automatic upper y limit can coincide with the largest value for ranges a few ulps wide (the original defect)")
